@@ -205,6 +205,7 @@ func checkC16(p *Prog, res *Result, tier string) {
 	res.rule("C16-R2", "recognisers equate all accepted keys, test RangeEnd empty and test the compare's Target/Result", 4)
 	res.rule("C16-R3", "the shim builds one ResponseOp of the prescribed kind per shape", 4)
 	res.rule("C16-R4", "unsupported RPC handlers reach no backend write", 5)
+	res.rule("C16-R6", "a Range answer is the backend's complete snapshot read: no key missing, duplicated or out of order because of partitioning or a retried scan (C13-R5/R6/R8)", 5)
 	res.rule("C16-R5", "the failure branch of update/delete answers with the key-value read after the failed write", 2)
 
 	txnM := p.ifaceMethod("go.etcd.io/etcd/api/v3/etcdserverpb", "KVServer", "Txn")
@@ -535,6 +536,15 @@ func checkC16(p *Prog, res *Result, tier string) {
 			checkFailureBranchKv(p, r, res, f, casFailed)
 		}
 	}
+	// ---- R6: the Range answer is the complete snapshot (C13-R5/R6/R8) ----
+	sub13 := newResult("C13")
+	checkC13(p, sub13, tier)
+	for _, o := range sub13.Obls {
+		if o.Rule == "C13-R5" || o.Rule == "C13-R6" || o.Rule == "C13-R8" {
+			res.add("C16-R6", o.Rule+" "+o.Construct, o.Status, o.Pos, o.Detail)
+		}
+	}
+
 }
 
 func localHelpers(f *ssa.Function, pkg *ssa.Package) []*ssa.Function {
